@@ -29,6 +29,31 @@ theorem foldl_flag {α : Type} (p : α → Bool) (l : List α) (b : Bool) :
     rw [List.foldl_cons, ih, List.any_cons]
     cases p a <;> cases b <;> simp
 
+/-- `found, one := false, true; for … { if c e { found = true; one = one && v e } }`: whether an
+element satisfies `c`, and whether all that do satisfy `v`. -/
+theorem foldl_found_one {α : Type} (c v : α → Bool) (f : Bool × Bool → α → Bool × Bool)
+    (hf : ∀ a b e, f (a, b) e = if c e = true then (true, b && v e) else (a, b))
+    (l : List α) (a b : Bool) :
+    l.foldl f (a, b) = (a || l.any c, b && (l.filter c).all v) := by
+  induction l generalizing a b with
+  | nil => simp
+  | cons e l ih =>
+    rw [List.foldl_cons, hf]
+    cases hc : c e
+    · simp [ih, hc]
+    · simp [ih, hc, Bool.and_assoc]
+
+/-- A loop that carries a pair whose first component every step sets anew (a range variable
+read as a local copy) is, for the second component, the loop without it. -/
+theorem foldl_snd {α β γ : Type} (f : α × β → γ → α × β) (g : β → γ → β)
+    (h : ∀ a b e, (f (a, b) e).2 = g b e) (l : List γ) (init : α × β) :
+    (l.foldl f init).2 = l.foldl g init.2 := by
+  induction l generalizing init with
+  | nil => rfl
+  | cons e l ih =>
+    obtain ⟨a, b⟩ := init
+    rw [List.foldl_cons, ih, List.foldl_cons, h]
+
 theorem length_flatMap_replicate {α β : Type} (l : List α) (n : α → Nat) (b : β) :
     (l.flatMap (fun x => List.replicate (n x) b)).length = (l.map n).sum := by
   induction l with
